@@ -468,6 +468,7 @@ class MultiStream(Stream):
         phases = phase_tuple(phases)
         if phases != self.phases:
             self._imol = self._imol.to_material_indexer(phases)
+            self._streams.clear() # Phase sub-streams reference the rows of the old indexer
             self.reset_cache()
     
     ### Flow properties ###
